@@ -26,6 +26,13 @@ func c10Fragments(rep *Report) int {
 			depth := map[int]int{}
 			name := fmt.Sprintf("incomplete-packet-in-many-fragments/%s/%s", kind, frag)
 			curScenario = name
+			unlock := func() {}
+			if frag != "empty" {
+				unlock = hugeLock()
+			}
+			var m0, m1 runtime.MemStats
+			runtime.ReadMemStats(&m0)
+			reserved := uint64(0)
 			x := vsched.Run(nil, 400000, false, nil, func() {
 				w := NewWorld()
 				gw := NewGateway(GwCfg{HostSelection: "any"})
@@ -38,6 +45,13 @@ func c10Fragments(rep *Report) int {
 					// a header that announces a packet of nearly 4 GiB
 					c.SendSegment([]byte{byte(tsgu.TypeData), 0, 0, 0, 0xf0, 0xff, 0xff, 0xff})
 					vsched.WaitIdle()
+					// the announcement alone must not make the gateway reserve what it announces
+					runtime.ReadMemStats(&m1)
+					if g := m1.TotalAlloc - m0.TotalAlloc; g > 256<<20 {
+						reserved = g
+						c.CloseClient()
+						return
+					}
 				}
 				sent := 0
 				for _, upto := range []int{10, 200, 2000} {
@@ -62,6 +76,11 @@ func c10Fragments(rep *Report) int {
 				rep.violate("C10/panic:"+shortFn(panicSite(p))+"/"+name, p.Value, map[string]any{"noreplay": true})
 			}
 			x.Finish()
+			unlock()
+			if reserved > 0 {
+				rep.violate("C10/memory-reserved-by-announced-length/"+name, fmt.Sprintf("an 8-byte header announcing a packet of nearly 4 GiB made the gateway allocate %d MiB for this one connection", reserved>>20), map[string]any{"noreplay": true})
+				continue
+			}
 			rep.outcome(fmt.Sprintf("j %s %s depth=%v", kind, frag, depth[10] == depth[2000]))
 			if depth[2000] > depth[10]+5 && depth[200] > depth[10] {
 				rep.violate("C10/call-stack-grows-with-every-fragment-of-an-incomplete-packet/"+kind+"/"+frag,
